@@ -23,8 +23,8 @@ Sq1(a) == L(<<a>>)
 Attrs == <<
   [n |-> "image", top |-> FALSE, p |-> <<"image">>, alts |-> {S("x"), S("y")}],
   [n |-> "init", top |-> FALSE, p |-> <<"init">>, alts |-> {B(TRUE), B(FALSE)}],
-  [n |-> "command", top |-> FALSE, p |-> <<"command">>, alts |-> {S("echo hi"), Sq2(S("run"), S("--now")), Sq1(S("only"))}],
-  [n |-> "entrypoint", top |-> FALSE, p |-> <<"entrypoint">>, alts |-> {S("/bin/entry"), Sq2(S("sh"), S("-c"))}],
+  [n |-> "command", top |-> FALSE, p |-> <<"command">>, alts |-> {S("echo hi"), Sq2(S("run"), S("--now")), Sq1(S("only")), Null}],   \* an explicit null replaces the value like any other
+  [n |-> "entrypoint", top |-> FALSE, p |-> <<"entrypoint">>, alts |-> {S("/bin/entry"), Sq2(S("sh"), S("-c")), Null}],
   [n |-> "healthcheck", top |-> FALSE, p |-> <<"healthcheck">>,
      alts |-> {M2("test", S("curl -f localhost"), "interval", S("10s")), M1("test", Sq2(S("CMD"), S("true"))), M2("interval", S("5s"), "retries", I(3))}],
   [n |-> "environment", top |-> FALSE, p |-> <<"environment">>,
@@ -97,12 +97,12 @@ IsSeed == "seed" \in DOMAIN cs
 Next == /\ IsSeed
         /\ LET a == Attrs[cs.seed] IN
            \/ \E b \in a.alts : \E o \in a.alts : cs' = Case(a, b, <<Place(a, o)>>)
-           \/ \E b \in a.alts : \E o \in a.alts : cs' = Case(a, b, <<Place(a, Tagged(o, "override"))>>)
+           \/ \E b \in a.alts : \E o \in a.alts \ {Null} : cs' = Case(a, b, <<Place(a, Tagged(o, "override"))>>)   \* (`!override null`: a tag on nothing - not a value the statement speaks of)
            \/ \E b \in a.alts : cs' = Case(a, b, <<Place(a, Tagged(Null, "reset"))>>)
            \/ \E b \in a.alts : \E o \in a.alts : cs' = Case(a, b, <<Place(a, Tagged(Null, "reset")), Place(a, o)>>)
            \/ Triples /\ \E b \in a.alts : \E o1 \in a.alts : \E o2 \in a.alts : cs' = Case(a, b, <<Place(a, o1), Place(a, o2)>>)
            \* a tag in a document that is not the last one: its effect must not outlive that document
-           \/ Triples /\ \E b \in a.alts : \E o1 \in a.alts : \E o2 \in a.alts : cs' = Case(a, b, <<Place(a, Tagged(o1, "override")), Place(a, o2)>>)
+           \/ Triples /\ \E b \in a.alts : \E o1 \in a.alts \ {Null} : \E o2 \in a.alts : cs' = Case(a, b, <<Place(a, Tagged(o1, "override")), Place(a, o2)>>)
            \/ Triples /\ \E b \in a.alts : \E o2 \in a.alts : cs' = Case(a, b, <<Place(a, Tagged(Null, "reset")), EmptyDocFor(a), Place(a, o2)>>)
 \* two attributes in the base (the second one merged in by the specification itself), the override mentions the first only
 CrossCase(a1, b1, a2, b2, o) ==
